@@ -236,6 +236,9 @@ package stick
 //@ pred stackOf(s *state) = s.scope.scopes
 
 //@ func stick.(*state).walk
+//@   propagates
+//@   ensures wfail: wfail() && !old(wfail()) ==> err != nil
+//@   ensures order: wafterfail() ==> old(wafterfail()) || old(wfail())
 //@   requires node: node != nil
 //@   requires xinv(s)
 //@   ensures inv: xinv(s)
@@ -247,10 +250,13 @@ package stick
 // A11 (trusted, not proved): states are separate — executing on one state does not modify the list of
 // scope maps of another state's scope stack (ownership of backing arrays is not modelled).
 //@   trusts sep: forall p, i :: allocated(p) && p != old(s.scope) && 0 <= i && i < old(len(fld("stick.scopeStack", "scopes", p))) ==> fld("stick.scopeStack", "scopes", p)[i] == old(fld("stick.scopeStack", "scopes", p)[i])
-//@   loop 1 invariant frame: xinv(s) && s.scope == old(s.scope) && len(s.scope.scopes) == old(len(s.scope.scopes)) && (forall i trig :: 0 <= i && i < len(s.scope.scopes) ==> s.scope.scopes[i] == old(s.scope.scopes[i])) && s.name == old(s.name) && s.current == old(s.current) && s.env == old(s.env) && len(s.blocks) >= old(len(s.blocks)) && (forall p trig :: allocated(p) && p != old(s.scope) ==> fld("stick.scopeStack", "scopes", p) == old(fld("stick.scopeStack", "scopes", p))) && s.out == old(s.out)
-//@   loop 2 invariant frame: xinv(s) && s.scope == old(s.scope) && len(s.scope.scopes) == old(len(s.scope.scopes)) && (forall i trig :: 0 <= i && i < len(s.scope.scopes) ==> s.scope.scopes[i] == old(s.scope.scopes[i])) && s.name == old(s.name) && s.current == old(s.current) && s.env == old(s.env) && len(s.blocks) >= old(len(s.blocks)) && (forall p trig :: allocated(p) && p != old(s.scope) ==> fld("stick.scopeStack", "scopes", p) == old(fld("stick.scopeStack", "scopes", p))) && s.out == old(s.out)
+//@   loop 1 invariant frame: xinv(s) && s.scope == old(s.scope) && len(s.scope.scopes) == old(len(s.scope.scopes)) && (forall i trig :: 0 <= i && i < len(s.scope.scopes) ==> s.scope.scopes[i] == old(s.scope.scopes[i])) && s.name == old(s.name) && s.current == old(s.current) && s.env == old(s.env) && len(s.blocks) >= old(len(s.blocks)) && (forall p trig :: allocated(p) && p != old(s.scope) ==> fld("stick.scopeStack", "scopes", p) == old(fld("stick.scopeStack", "scopes", p))) && s.out == old(s.out) && (wfail() ==> old(wfail())) && (wafterfail() ==> old(wafterfail()) || old(wfail()))
+//@   loop 2 invariant frame: xinv(s) && s.scope == old(s.scope) && len(s.scope.scopes) == old(len(s.scope.scopes)) && (forall i trig :: 0 <= i && i < len(s.scope.scopes) ==> s.scope.scopes[i] == old(s.scope.scopes[i])) && s.name == old(s.name) && s.current == old(s.current) && s.env == old(s.env) && len(s.blocks) >= old(len(s.blocks)) && (forall p trig :: allocated(p) && p != old(s.scope) ==> fld("stick.scopeStack", "scopes", p) == old(fld("stick.scopeStack", "scopes", p))) && s.out == old(s.out) && (wfail() ==> old(wfail())) && (wafterfail() ==> old(wafterfail()) || old(wfail()))
 
 //@ func stick.(*state).walkChild
+//@   propagates
+//@   ensures wfail: wfail() && !old(wfail()) ==> err != nil
+//@   ensures order: wafterfail() ==> old(wafterfail()) || old(wfail())
 //@   requires xinv(s)
 //@   ensures inv: xinv(s)
 //@   ensures out: err == nil ==> s.out == old(s.out)
@@ -261,14 +267,17 @@ package stick
 // A11 (trusted, not proved): states are separate — executing on one state does not modify the list of
 // scope maps of another state's scope stack (ownership of backing arrays is not modelled).
 //@   trusts sep: forall p, i :: allocated(p) && p != old(s.scope) && 0 <= i && i < old(len(fld("stick.scopeStack", "scopes", p))) ==> fld("stick.scopeStack", "scopes", p)[i] == old(fld("stick.scopeStack", "scopes", p)[i])
-//@   loop 1 invariant frame: xinv(s) && s.scope == old(s.scope) && len(s.scope.scopes) == old(len(s.scope.scopes)) && (forall i trig :: 0 <= i && i < len(s.scope.scopes) ==> s.scope.scopes[i] == old(s.scope.scopes[i])) && s.name == old(s.name) && s.current == old(s.current) && s.env == old(s.env) && len(s.blocks) >= old(len(s.blocks)) && (forall p trig :: allocated(p) && p != old(s.scope) ==> fld("stick.scopeStack", "scopes", p) == old(fld("stick.scopeStack", "scopes", p))) && s.out == old(s.out)
+//@   loop 1 invariant frame: xinv(s) && s.scope == old(s.scope) && len(s.scope.scopes) == old(len(s.scope.scopes)) && (forall i trig :: 0 <= i && i < len(s.scope.scopes) ==> s.scope.scopes[i] == old(s.scope.scopes[i])) && s.name == old(s.name) && s.current == old(s.current) && s.env == old(s.env) && len(s.blocks) >= old(len(s.blocks)) && (forall p trig :: allocated(p) && p != old(s.scope) ==> fld("stick.scopeStack", "scopes", p) == old(fld("stick.scopeStack", "scopes", p))) && s.out == old(s.out) && (wfail() ==> old(wfail())) && (wafterfail() ==> old(wafterfail()) || old(wfail()))
 
 //@ func stick.(*state).walkForNode
+//@   propagates
+//@   ensures wfail: wfail() && !old(wfail()) ==> err != nil
+//@   ensures order: wafterfail() ==> old(wafterfail()) || old(wfail())
 // Iterate and the per-element closure are expanded here, so that the loop over the elements is verified
 // with this function's frame invariants (scope balance per iteration: C07) next to Iterate's own.
 //@   inlines stick.Iterate
-//@   loop stick.Iterate:1 invariant frame: xinv(s) && s.scope == old(s.scope) && len(s.scope.scopes) == old(len(s.scope.scopes)) && (forall i trig :: 0 <= i && i < len(s.scope.scopes) ==> s.scope.scopes[i] == old(s.scope.scopes[i])) && s.name == old(s.name) && s.current == old(s.current) && s.env == old(s.env) && len(s.blocks) >= old(len(s.blocks)) && (forall p trig :: allocated(p) && p != old(s.scope) ==> fld("stick.scopeStack", "scopes", p) == old(fld("stick.scopeStack", "scopes", p))) && s.out == old(s.out)
-//@   loop stick.Iterate:2 invariant frame: xinv(s) && s.scope == old(s.scope) && len(s.scope.scopes) == old(len(s.scope.scopes)) && (forall i trig :: 0 <= i && i < len(s.scope.scopes) ==> s.scope.scopes[i] == old(s.scope.scopes[i])) && s.name == old(s.name) && s.current == old(s.current) && s.env == old(s.env) && len(s.blocks) >= old(len(s.blocks)) && (forall p trig :: allocated(p) && p != old(s.scope) ==> fld("stick.scopeStack", "scopes", p) == old(fld("stick.scopeStack", "scopes", p))) && s.out == old(s.out)
+//@   loop stick.Iterate:1 invariant frame: xinv(s) && s.scope == old(s.scope) && len(s.scope.scopes) == old(len(s.scope.scopes)) && (forall i trig :: 0 <= i && i < len(s.scope.scopes) ==> s.scope.scopes[i] == old(s.scope.scopes[i])) && s.name == old(s.name) && s.current == old(s.current) && s.env == old(s.env) && len(s.blocks) >= old(len(s.blocks)) && (forall p trig :: allocated(p) && p != old(s.scope) ==> fld("stick.scopeStack", "scopes", p) == old(fld("stick.scopeStack", "scopes", p))) && s.out == old(s.out) && (wfail() ==> old(wfail())) && (wafterfail() ==> old(wafterfail()) || old(wfail()))
+//@   loop stick.Iterate:2 invariant frame: xinv(s) && s.scope == old(s.scope) && len(s.scope.scopes) == old(len(s.scope.scopes)) && (forall i trig :: 0 <= i && i < len(s.scope.scopes) ==> s.scope.scopes[i] == old(s.scope.scopes[i])) && s.name == old(s.name) && s.current == old(s.current) && s.env == old(s.env) && len(s.blocks) >= old(len(s.blocks)) && (forall p trig :: allocated(p) && p != old(s.scope) ==> fld("stick.scopeStack", "scopes", p) == old(fld("stick.scopeStack", "scopes", p))) && s.out == old(s.out) && (wfail() ==> old(wfail())) && (wafterfail() ==> old(wafterfail()) || old(wfail()))
 //@   requires xinv(s)
 //@   ensures inv: xinv(s)
 //@   ensures out: err == nil ==> s.out == old(s.out)
@@ -281,6 +290,9 @@ package stick
 //@   trusts sep: forall p, i :: allocated(p) && p != old(s.scope) && 0 <= i && i < old(len(fld("stick.scopeStack", "scopes", p))) ==> fld("stick.scopeStack", "scopes", p)[i] == old(fld("stick.scopeStack", "scopes", p)[i])
 
 //@ func stick.(*state).walkIncludeNode
+//@   propagates
+//@   ensures wfail: wfail() && !old(wfail()) ==> err != nil
+//@   ensures order: wafterfail() ==> old(wafterfail()) || old(wfail())
 //@   ensures ctx: err == nil ==> ctx != nil && fresh(ctx)
 //@   requires xinv(s)
 //@   ensures inv: xinv(s)
@@ -292,11 +304,14 @@ package stick
 // A11 (trusted, not proved): states are separate — executing on one state does not modify the list of
 // scope maps of another state's scope stack (ownership of backing arrays is not modelled).
 //@   trusts sep: forall p, i :: allocated(p) && p != old(s.scope) && 0 <= i && i < old(len(fld("stick.scopeStack", "scopes", p))) ==> fld("stick.scopeStack", "scopes", p)[i] == old(fld("stick.scopeStack", "scopes", p)[i])
-//@   loop 1 invariant frame: xinv(s) && s.scope == old(s.scope) && len(s.scope.scopes) == old(len(s.scope.scopes)) && (forall i trig :: 0 <= i && i < len(s.scope.scopes) ==> s.scope.scopes[i] == old(s.scope.scopes[i])) && s.name == old(s.name) && s.current == old(s.current) && s.env == old(s.env) && len(s.blocks) >= old(len(s.blocks)) && (forall p trig :: allocated(p) && p != old(s.scope) ==> fld("stick.scopeStack", "scopes", p) == old(fld("stick.scopeStack", "scopes", p))) && s.out == old(s.out)
-//@   loop 2 invariant frame: xinv(s) && s.scope == old(s.scope) && len(s.scope.scopes) == old(len(s.scope.scopes)) && (forall i trig :: 0 <= i && i < len(s.scope.scopes) ==> s.scope.scopes[i] == old(s.scope.scopes[i])) && s.name == old(s.name) && s.current == old(s.current) && s.env == old(s.env) && len(s.blocks) >= old(len(s.blocks)) && (forall p trig :: allocated(p) && p != old(s.scope) ==> fld("stick.scopeStack", "scopes", p) == old(fld("stick.scopeStack", "scopes", p))) && s.out == old(s.out)
-//@   loop 3 invariant frame: xinv(s) && s.scope == old(s.scope) && len(s.scope.scopes) == old(len(s.scope.scopes)) && (forall i trig :: 0 <= i && i < len(s.scope.scopes) ==> s.scope.scopes[i] == old(s.scope.scopes[i])) && s.name == old(s.name) && s.current == old(s.current) && s.env == old(s.env) && len(s.blocks) >= old(len(s.blocks)) && (forall p trig :: allocated(p) && p != old(s.scope) ==> fld("stick.scopeStack", "scopes", p) == old(fld("stick.scopeStack", "scopes", p))) && s.out == old(s.out)
+//@   loop 1 invariant frame: xinv(s) && s.scope == old(s.scope) && len(s.scope.scopes) == old(len(s.scope.scopes)) && (forall i trig :: 0 <= i && i < len(s.scope.scopes) ==> s.scope.scopes[i] == old(s.scope.scopes[i])) && s.name == old(s.name) && s.current == old(s.current) && s.env == old(s.env) && len(s.blocks) >= old(len(s.blocks)) && (forall p trig :: allocated(p) && p != old(s.scope) ==> fld("stick.scopeStack", "scopes", p) == old(fld("stick.scopeStack", "scopes", p))) && s.out == old(s.out) && (wfail() ==> old(wfail())) && (wafterfail() ==> old(wafterfail()) || old(wfail()))
+//@   loop 2 invariant frame: xinv(s) && s.scope == old(s.scope) && len(s.scope.scopes) == old(len(s.scope.scopes)) && (forall i trig :: 0 <= i && i < len(s.scope.scopes) ==> s.scope.scopes[i] == old(s.scope.scopes[i])) && s.name == old(s.name) && s.current == old(s.current) && s.env == old(s.env) && len(s.blocks) >= old(len(s.blocks)) && (forall p trig :: allocated(p) && p != old(s.scope) ==> fld("stick.scopeStack", "scopes", p) == old(fld("stick.scopeStack", "scopes", p))) && s.out == old(s.out) && (wfail() ==> old(wfail())) && (wafterfail() ==> old(wafterfail()) || old(wfail()))
+//@   loop 3 invariant frame: xinv(s) && s.scope == old(s.scope) && len(s.scope.scopes) == old(len(s.scope.scopes)) && (forall i trig :: 0 <= i && i < len(s.scope.scopes) ==> s.scope.scopes[i] == old(s.scope.scopes[i])) && s.name == old(s.name) && s.current == old(s.current) && s.env == old(s.env) && len(s.blocks) >= old(len(s.blocks)) && (forall p trig :: allocated(p) && p != old(s.scope) ==> fld("stick.scopeStack", "scopes", p) == old(fld("stick.scopeStack", "scopes", p))) && s.out == old(s.out) && (wfail() ==> old(wfail())) && (wafterfail() ==> old(wafterfail()) || old(wfail()))
 
 //@ func stick.(*state).walkUseNode
+//@   propagates
+//@   ensures wfail: wfail() && !old(wfail()) ==> err != nil
+//@   ensures order: wafterfail() ==> old(wafterfail()) || old(wfail())
 //@   requires xinv(s)
 //@   ensures inv: xinv(s)
 //@   ensures out: err == nil ==> s.out == old(s.out)
@@ -307,9 +322,12 @@ package stick
 // A11 (trusted, not proved): states are separate — executing on one state does not modify the list of
 // scope maps of another state's scope stack (ownership of backing arrays is not modelled).
 //@   trusts sep: forall p, i :: allocated(p) && p != old(s.scope) && 0 <= i && i < old(len(fld("stick.scopeStack", "scopes", p))) ==> fld("stick.scopeStack", "scopes", p)[i] == old(fld("stick.scopeStack", "scopes", p)[i])
-//@   loop 1 invariant frame: xinv(s) && s.scope == old(s.scope) && len(s.scope.scopes) == old(len(s.scope.scopes)) && (forall i trig :: 0 <= i && i < len(s.scope.scopes) ==> s.scope.scopes[i] == old(s.scope.scopes[i])) && s.name == old(s.name) && s.current == old(s.current) && s.env == old(s.env) && len(s.blocks) >= old(len(s.blocks)) && (forall p trig :: allocated(p) && p != old(s.scope) ==> fld("stick.scopeStack", "scopes", p) == old(fld("stick.scopeStack", "scopes", p))) && s.out == old(s.out)
+//@   loop 1 invariant frame: xinv(s) && s.scope == old(s.scope) && len(s.scope.scopes) == old(len(s.scope.scopes)) && (forall i trig :: 0 <= i && i < len(s.scope.scopes) ==> s.scope.scopes[i] == old(s.scope.scopes[i])) && s.name == old(s.name) && s.current == old(s.current) && s.env == old(s.env) && len(s.blocks) >= old(len(s.blocks)) && (forall p trig :: allocated(p) && p != old(s.scope) ==> fld("stick.scopeStack", "scopes", p) == old(fld("stick.scopeStack", "scopes", p))) && s.out == old(s.out) && (wfail() ==> old(wfail())) && (wafterfail() ==> old(wafterfail()) || old(wfail()))
 
 //@ func stick.(*state).walkSetNode
+//@   propagates
+//@   ensures wfail: wfail() && !old(wfail()) ==> err != nil
+//@   ensures order: wafterfail() ==> old(wafterfail()) || old(wfail())
 //@   requires xinv(s)
 //@   ensures inv: xinv(s)
 //@   ensures out: err == nil ==> s.out == old(s.out)
@@ -322,6 +340,9 @@ package stick
 //@   trusts sep: forall p, i :: allocated(p) && p != old(s.scope) && 0 <= i && i < old(len(fld("stick.scopeStack", "scopes", p))) ==> fld("stick.scopeStack", "scopes", p)[i] == old(fld("stick.scopeStack", "scopes", p)[i])
 
 //@ func stick.(*state).walkDoNode
+//@   propagates
+//@   ensures wfail: wfail() && !old(wfail()) ==> err != nil
+//@   ensures order: wafterfail() ==> old(wafterfail()) || old(wfail())
 //@   requires xinv(s)
 //@   ensures inv: xinv(s)
 //@   ensures out: err == nil ==> s.out == old(s.out)
@@ -334,6 +355,9 @@ package stick
 //@   trusts sep: forall p, i :: allocated(p) && p != old(s.scope) && 0 <= i && i < old(len(fld("stick.scopeStack", "scopes", p))) ==> fld("stick.scopeStack", "scopes", p)[i] == old(fld("stick.scopeStack", "scopes", p)[i])
 
 //@ func stick.(*state).walkFilterNode
+//@   propagates
+//@   ensures wfail: wfail() && !old(wfail()) ==> err != nil
+//@   ensures order: wafterfail() ==> old(wafterfail()) || old(wfail())
 //@   reveal cbOK
 //@   requires xinv(s)
 //@   ensures inv: xinv(s)
@@ -348,6 +372,9 @@ package stick
 //@   loop 1 invariant frame: xinv(s) && s.scope == old(s.scope) && len(s.scope.scopes) == old(len(s.scope.scopes)) && (forall i trig :: 0 <= i && i < len(s.scope.scopes) ==> s.scope.scopes[i] == old(s.scope.scopes[i])) && s.name == old(s.name) && s.current == old(s.current) && s.env == old(s.env) && len(s.blocks) >= old(len(s.blocks)) && (forall p trig :: allocated(p) && p != old(s.scope) ==> fld("stick.scopeStack", "scopes", p) == old(fld("stick.scopeStack", "scopes", p)))
 
 //@ func stick.(*state).walkImportNode
+//@   propagates
+//@   ensures wfail: wfail() && !old(wfail()) ==> err != nil
+//@   ensures order: wafterfail() ==> old(wafterfail()) || old(wfail())
 //@   requires xinv(s)
 //@   ensures inv: xinv(s)
 //@   ensures out: err == nil ==> s.out == old(s.out)
@@ -358,9 +385,12 @@ package stick
 // A11 (trusted, not proved): states are separate — executing on one state does not modify the list of
 // scope maps of another state's scope stack (ownership of backing arrays is not modelled).
 //@   trusts sep: forall p, i :: allocated(p) && p != old(s.scope) && 0 <= i && i < old(len(fld("stick.scopeStack", "scopes", p))) ==> fld("stick.scopeStack", "scopes", p)[i] == old(fld("stick.scopeStack", "scopes", p)[i])
-//@   loop 1 invariant frame: xinv(s) && s.scope == old(s.scope) && len(s.scope.scopes) == old(len(s.scope.scopes)) && (forall i trig :: 0 <= i && i < len(s.scope.scopes) ==> s.scope.scopes[i] == old(s.scope.scopes[i])) && s.name == old(s.name) && s.current == old(s.current) && s.env == old(s.env) && len(s.blocks) >= old(len(s.blocks)) && (forall p trig :: allocated(p) && p != old(s.scope) ==> fld("stick.scopeStack", "scopes", p) == old(fld("stick.scopeStack", "scopes", p))) && s.out == old(s.out)
+//@   loop 1 invariant frame: xinv(s) && s.scope == old(s.scope) && len(s.scope.scopes) == old(len(s.scope.scopes)) && (forall i trig :: 0 <= i && i < len(s.scope.scopes) ==> s.scope.scopes[i] == old(s.scope.scopes[i])) && s.name == old(s.name) && s.current == old(s.current) && s.env == old(s.env) && len(s.blocks) >= old(len(s.blocks)) && (forall p trig :: allocated(p) && p != old(s.scope) ==> fld("stick.scopeStack", "scopes", p) == old(fld("stick.scopeStack", "scopes", p))) && s.out == old(s.out) && (wfail() ==> old(wfail())) && (wafterfail() ==> old(wafterfail()) || old(wfail()))
 
 //@ func stick.(*state).walkFromNode
+//@   propagates
+//@   ensures wfail: wfail() && !old(wfail()) ==> err != nil
+//@   ensures order: wafterfail() ==> old(wafterfail()) || old(wfail())
 //@   requires xinv(s)
 //@   ensures inv: xinv(s)
 //@   ensures out: err == nil ==> s.out == old(s.out)
@@ -371,9 +401,13 @@ package stick
 // A11 (trusted, not proved): states are separate — executing on one state does not modify the list of
 // scope maps of another state's scope stack (ownership of backing arrays is not modelled).
 //@   trusts sep: forall p, i :: allocated(p) && p != old(s.scope) && 0 <= i && i < old(len(fld("stick.scopeStack", "scopes", p))) ==> fld("stick.scopeStack", "scopes", p)[i] == old(fld("stick.scopeStack", "scopes", p)[i])
-//@   loop 1 invariant frame: xinv(s) && s.scope == old(s.scope) && len(s.scope.scopes) == old(len(s.scope.scopes)) && (forall i trig :: 0 <= i && i < len(s.scope.scopes) ==> s.scope.scopes[i] == old(s.scope.scopes[i])) && s.name == old(s.name) && s.current == old(s.current) && s.env == old(s.env) && len(s.blocks) >= old(len(s.blocks)) && (forall p trig :: allocated(p) && p != old(s.scope) ==> fld("stick.scopeStack", "scopes", p) == old(fld("stick.scopeStack", "scopes", p))) && s.out == old(s.out)
+//@   loop 1 invariant frame: xinv(s) && s.scope == old(s.scope) && len(s.scope.scopes) == old(len(s.scope.scopes)) && (forall i trig :: 0 <= i && i < len(s.scope.scopes) ==> s.scope.scopes[i] == old(s.scope.scopes[i])) && s.name == old(s.name) && s.current == old(s.current) && s.env == old(s.env) && len(s.blocks) >= old(len(s.blocks)) && (forall p trig :: allocated(p) && p != old(s.scope) ==> fld("stick.scopeStack", "scopes", p) == old(fld("stick.scopeStack", "scopes", p))) && s.out == old(s.out) && (wfail() ==> old(wfail())) && (wafterfail() ==> old(wafterfail()) || old(wfail()))
 
 //@ func stick.(*state).evalExpr
+// (the lookup error of GetAttr is discarded by design: missing attributes render empty, C16)
+//@   propagates except GetAttr(
+//@   ensures wfail: wfail() && !old(wfail()) ==> err != nil
+//@   ensures order: wafterfail() ==> old(wafterfail()) || old(wfail())
 //@   reveal cbOK
 //@   requires xinv(s)
 //@   ensures inv: xinv(s)
@@ -385,13 +419,16 @@ package stick
 // A11 (trusted, not proved): states are separate — executing on one state does not modify the list of
 // scope maps of another state's scope stack (ownership of backing arrays is not modelled).
 //@   trusts sep: forall p, i :: allocated(p) && p != old(s.scope) && 0 <= i && i < old(len(fld("stick.scopeStack", "scopes", p))) ==> fld("stick.scopeStack", "scopes", p)[i] == old(fld("stick.scopeStack", "scopes", p)[i])
-//@   loop 1 invariant frame: xinv(s) && s.scope == old(s.scope) && len(s.scope.scopes) == old(len(s.scope.scopes)) && (forall i trig :: 0 <= i && i < len(s.scope.scopes) ==> s.scope.scopes[i] == old(s.scope.scopes[i])) && s.name == old(s.name) && s.current == old(s.current) && s.env == old(s.env) && len(s.blocks) >= old(len(s.blocks)) && (forall p trig :: allocated(p) && p != old(s.scope) ==> fld("stick.scopeStack", "scopes", p) == old(fld("stick.scopeStack", "scopes", p))) && s.out == old(s.out)
-//@   loop 2 invariant frame: xinv(s) && s.scope == old(s.scope) && len(s.scope.scopes) == old(len(s.scope.scopes)) && (forall i trig :: 0 <= i && i < len(s.scope.scopes) ==> s.scope.scopes[i] == old(s.scope.scopes[i])) && s.name == old(s.name) && s.current == old(s.current) && s.env == old(s.env) && len(s.blocks) >= old(len(s.blocks)) && (forall p trig :: allocated(p) && p != old(s.scope) ==> fld("stick.scopeStack", "scopes", p) == old(fld("stick.scopeStack", "scopes", p))) && s.out == old(s.out)
-//@   loop 3 invariant frame: xinv(s) && s.scope == old(s.scope) && len(s.scope.scopes) == old(len(s.scope.scopes)) && (forall i trig :: 0 <= i && i < len(s.scope.scopes) ==> s.scope.scopes[i] == old(s.scope.scopes[i])) && s.name == old(s.name) && s.current == old(s.current) && s.env == old(s.env) && len(s.blocks) >= old(len(s.blocks)) && (forall p trig :: allocated(p) && p != old(s.scope) ==> fld("stick.scopeStack", "scopes", p) == old(fld("stick.scopeStack", "scopes", p))) && s.out == old(s.out)
-//@   loop 4 invariant frame: xinv(s) && s.scope == old(s.scope) && len(s.scope.scopes) == old(len(s.scope.scopes)) && (forall i trig :: 0 <= i && i < len(s.scope.scopes) ==> s.scope.scopes[i] == old(s.scope.scopes[i])) && s.name == old(s.name) && s.current == old(s.current) && s.env == old(s.env) && len(s.blocks) >= old(len(s.blocks)) && (forall p trig :: allocated(p) && p != old(s.scope) ==> fld("stick.scopeStack", "scopes", p) == old(fld("stick.scopeStack", "scopes", p))) && s.out == old(s.out)
-//@   loop 5 invariant frame: xinv(s) && s.scope == old(s.scope) && len(s.scope.scopes) == old(len(s.scope.scopes)) && (forall i trig :: 0 <= i && i < len(s.scope.scopes) ==> s.scope.scopes[i] == old(s.scope.scopes[i])) && s.name == old(s.name) && s.current == old(s.current) && s.env == old(s.env) && len(s.blocks) >= old(len(s.blocks)) && (forall p trig :: allocated(p) && p != old(s.scope) ==> fld("stick.scopeStack", "scopes", p) == old(fld("stick.scopeStack", "scopes", p))) && s.out == old(s.out)
+//@   loop 1 invariant frame: xinv(s) && s.scope == old(s.scope) && len(s.scope.scopes) == old(len(s.scope.scopes)) && (forall i trig :: 0 <= i && i < len(s.scope.scopes) ==> s.scope.scopes[i] == old(s.scope.scopes[i])) && s.name == old(s.name) && s.current == old(s.current) && s.env == old(s.env) && len(s.blocks) >= old(len(s.blocks)) && (forall p trig :: allocated(p) && p != old(s.scope) ==> fld("stick.scopeStack", "scopes", p) == old(fld("stick.scopeStack", "scopes", p))) && s.out == old(s.out) && (wfail() ==> old(wfail())) && (wafterfail() ==> old(wafterfail()) || old(wfail()))
+//@   loop 2 invariant frame: xinv(s) && s.scope == old(s.scope) && len(s.scope.scopes) == old(len(s.scope.scopes)) && (forall i trig :: 0 <= i && i < len(s.scope.scopes) ==> s.scope.scopes[i] == old(s.scope.scopes[i])) && s.name == old(s.name) && s.current == old(s.current) && s.env == old(s.env) && len(s.blocks) >= old(len(s.blocks)) && (forall p trig :: allocated(p) && p != old(s.scope) ==> fld("stick.scopeStack", "scopes", p) == old(fld("stick.scopeStack", "scopes", p))) && s.out == old(s.out) && (wfail() ==> old(wfail())) && (wafterfail() ==> old(wafterfail()) || old(wfail()))
+//@   loop 3 invariant frame: xinv(s) && s.scope == old(s.scope) && len(s.scope.scopes) == old(len(s.scope.scopes)) && (forall i trig :: 0 <= i && i < len(s.scope.scopes) ==> s.scope.scopes[i] == old(s.scope.scopes[i])) && s.name == old(s.name) && s.current == old(s.current) && s.env == old(s.env) && len(s.blocks) >= old(len(s.blocks)) && (forall p trig :: allocated(p) && p != old(s.scope) ==> fld("stick.scopeStack", "scopes", p) == old(fld("stick.scopeStack", "scopes", p))) && s.out == old(s.out) && (wfail() ==> old(wfail())) && (wafterfail() ==> old(wafterfail()) || old(wfail()))
+//@   loop 4 invariant frame: xinv(s) && s.scope == old(s.scope) && len(s.scope.scopes) == old(len(s.scope.scopes)) && (forall i trig :: 0 <= i && i < len(s.scope.scopes) ==> s.scope.scopes[i] == old(s.scope.scopes[i])) && s.name == old(s.name) && s.current == old(s.current) && s.env == old(s.env) && len(s.blocks) >= old(len(s.blocks)) && (forall p trig :: allocated(p) && p != old(s.scope) ==> fld("stick.scopeStack", "scopes", p) == old(fld("stick.scopeStack", "scopes", p))) && s.out == old(s.out) && (wfail() ==> old(wfail())) && (wafterfail() ==> old(wafterfail()) || old(wfail()))
+//@   loop 5 invariant frame: xinv(s) && s.scope == old(s.scope) && len(s.scope.scopes) == old(len(s.scope.scopes)) && (forall i trig :: 0 <= i && i < len(s.scope.scopes) ==> s.scope.scopes[i] == old(s.scope.scopes[i])) && s.name == old(s.name) && s.current == old(s.current) && s.env == old(s.env) && len(s.blocks) >= old(len(s.blocks)) && (forall p trig :: allocated(p) && p != old(s.scope) ==> fld("stick.scopeStack", "scopes", p) == old(fld("stick.scopeStack", "scopes", p))) && s.out == old(s.out) && (wfail() ==> old(wfail())) && (wafterfail() ==> old(wafterfail()) || old(wfail()))
 
 //@ func stick.(*state).evalFunction
+//@   propagates
+//@   ensures wfail: wfail() && !old(wfail()) ==> err != nil
+//@   ensures order: wafterfail() ==> old(wafterfail()) || old(wfail())
 //@   reveal cbOK
 //@   requires xinv(s)
 //@   ensures inv: xinv(s)
@@ -403,11 +440,14 @@ package stick
 // A11 (trusted, not proved): states are separate — executing on one state does not modify the list of
 // scope maps of another state's scope stack (ownership of backing arrays is not modelled).
 //@   trusts sep: forall p, i :: allocated(p) && p != old(s.scope) && 0 <= i && i < old(len(fld("stick.scopeStack", "scopes", p))) ==> fld("stick.scopeStack", "scopes", p)[i] == old(fld("stick.scopeStack", "scopes", p)[i])
-//@   loop 1 invariant frame: xinv(s) && s.scope == old(s.scope) && len(s.scope.scopes) == old(len(s.scope.scopes)) && (forall i trig :: 0 <= i && i < len(s.scope.scopes) ==> s.scope.scopes[i] == old(s.scope.scopes[i])) && s.name == old(s.name) && s.current == old(s.current) && s.env == old(s.env) && len(s.blocks) >= old(len(s.blocks)) && (forall p trig :: allocated(p) && p != old(s.scope) ==> fld("stick.scopeStack", "scopes", p) == old(fld("stick.scopeStack", "scopes", p))) && s.out == old(s.out)
-//@   loop 2 invariant frame: xinv(s) && s.scope == old(s.scope) && len(s.scope.scopes) == old(len(s.scope.scopes)) && (forall i trig :: 0 <= i && i < len(s.scope.scopes) ==> s.scope.scopes[i] == old(s.scope.scopes[i])) && s.name == old(s.name) && s.current == old(s.current) && s.env == old(s.env) && len(s.blocks) >= old(len(s.blocks)) && (forall p trig :: allocated(p) && p != old(s.scope) ==> fld("stick.scopeStack", "scopes", p) == old(fld("stick.scopeStack", "scopes", p))) && s.out == old(s.out)
-//@   loop 3 invariant frame: xinv(s) && s.scope == old(s.scope) && len(s.scope.scopes) == old(len(s.scope.scopes)) && (forall i trig :: 0 <= i && i < len(s.scope.scopes) ==> s.scope.scopes[i] == old(s.scope.scopes[i])) && s.name == old(s.name) && s.current == old(s.current) && s.env == old(s.env) && len(s.blocks) >= old(len(s.blocks)) && (forall p trig :: allocated(p) && p != old(s.scope) ==> fld("stick.scopeStack", "scopes", p) == old(fld("stick.scopeStack", "scopes", p))) && s.out == old(s.out)
+//@   loop 1 invariant frame: xinv(s) && s.scope == old(s.scope) && len(s.scope.scopes) == old(len(s.scope.scopes)) && (forall i trig :: 0 <= i && i < len(s.scope.scopes) ==> s.scope.scopes[i] == old(s.scope.scopes[i])) && s.name == old(s.name) && s.current == old(s.current) && s.env == old(s.env) && len(s.blocks) >= old(len(s.blocks)) && (forall p trig :: allocated(p) && p != old(s.scope) ==> fld("stick.scopeStack", "scopes", p) == old(fld("stick.scopeStack", "scopes", p))) && s.out == old(s.out) && (wfail() ==> old(wfail())) && (wafterfail() ==> old(wafterfail()) || old(wfail()))
+//@   loop 2 invariant frame: xinv(s) && s.scope == old(s.scope) && len(s.scope.scopes) == old(len(s.scope.scopes)) && (forall i trig :: 0 <= i && i < len(s.scope.scopes) ==> s.scope.scopes[i] == old(s.scope.scopes[i])) && s.name == old(s.name) && s.current == old(s.current) && s.env == old(s.env) && len(s.blocks) >= old(len(s.blocks)) && (forall p trig :: allocated(p) && p != old(s.scope) ==> fld("stick.scopeStack", "scopes", p) == old(fld("stick.scopeStack", "scopes", p))) && s.out == old(s.out) && (wfail() ==> old(wfail())) && (wafterfail() ==> old(wafterfail()) || old(wfail()))
+//@   loop 3 invariant frame: xinv(s) && s.scope == old(s.scope) && len(s.scope.scopes) == old(len(s.scope.scopes)) && (forall i trig :: 0 <= i && i < len(s.scope.scopes) ==> s.scope.scopes[i] == old(s.scope.scopes[i])) && s.name == old(s.name) && s.current == old(s.current) && s.env == old(s.env) && len(s.blocks) >= old(len(s.blocks)) && (forall p trig :: allocated(p) && p != old(s.scope) ==> fld("stick.scopeStack", "scopes", p) == old(fld("stick.scopeStack", "scopes", p))) && s.out == old(s.out) && (wfail() ==> old(wfail())) && (wafterfail() ==> old(wafterfail()) || old(wfail()))
 
 //@ func stick.(*state).evalFilter
+//@   propagates
+//@   ensures wfail: wfail() && !old(wfail()) ==> err != nil
+//@   ensures order: wafterfail() ==> old(wafterfail()) || old(wfail())
 //@   reveal cbOK
 //@   requires xinv(s)
 //@   ensures inv: xinv(s)
@@ -419,9 +459,12 @@ package stick
 // A11 (trusted, not proved): states are separate — executing on one state does not modify the list of
 // scope maps of another state's scope stack (ownership of backing arrays is not modelled).
 //@   trusts sep: forall p, i :: allocated(p) && p != old(s.scope) && 0 <= i && i < old(len(fld("stick.scopeStack", "scopes", p))) ==> fld("stick.scopeStack", "scopes", p)[i] == old(fld("stick.scopeStack", "scopes", p)[i])
-//@   loop 1 invariant frame: xinv(s) && s.scope == old(s.scope) && len(s.scope.scopes) == old(len(s.scope.scopes)) && (forall i trig :: 0 <= i && i < len(s.scope.scopes) ==> s.scope.scopes[i] == old(s.scope.scopes[i])) && s.name == old(s.name) && s.current == old(s.current) && s.env == old(s.env) && len(s.blocks) >= old(len(s.blocks)) && (forall p trig :: allocated(p) && p != old(s.scope) ==> fld("stick.scopeStack", "scopes", p) == old(fld("stick.scopeStack", "scopes", p))) && s.out == old(s.out)
+//@   loop 1 invariant frame: xinv(s) && s.scope == old(s.scope) && len(s.scope.scopes) == old(len(s.scope.scopes)) && (forall i trig :: 0 <= i && i < len(s.scope.scopes) ==> s.scope.scopes[i] == old(s.scope.scopes[i])) && s.name == old(s.name) && s.current == old(s.current) && s.env == old(s.env) && len(s.blocks) >= old(len(s.blocks)) && (forall p trig :: allocated(p) && p != old(s.scope) ==> fld("stick.scopeStack", "scopes", p) == old(fld("stick.scopeStack", "scopes", p))) && s.out == old(s.out) && (wfail() ==> old(wfail())) && (wafterfail() ==> old(wafterfail()) || old(wfail()))
 
 //@ func stick.(*state).callMacro
+//@   propagates
+//@   ensures wfail: wfail() && !old(wfail()) ==> err != nil
+//@   ensures order: wafterfail() ==> old(wafterfail()) || old(wfail())
 //@   requires def: macro.MacroNode != nil
 //@   requires xinv(s)
 //@   ensures inv: xinv(s)
@@ -450,11 +493,13 @@ package stick
 //@   loop 2 invariant res != nil
 //@ func stick.(*state).self
 //@ func stick.execute
+//@   propagates
 //@   requires env != nil && env.Loader != nil && out != nil && cbOK(env)
 // an included template runs in a state of its own: no scope stack that existed before is touched
 //@   ensures others: forall p trig :: allocated(p) ==> fld("stick.scopeStack", "scopes", p) == old(fld("stick.scopeStack", "scopes", p))
 //@   trusts sep: forall p, i :: allocated(p) && 0 <= i && i < old(len(fld("stick.scopeStack", "scopes", p))) ==> fld("stick.scopeStack", "scopes", p)[i] == old(fld("stick.scopeStack", "scopes", p)[i])
 //@ func stick.(*Env).load
+//@   propagates
 //@   requires env.Loader != nil
 //@   ensures ok: err == nil ==> r0 != nil && r0.root != nil && len(r0.blocks) >= 1 && r0.macros != nil
 
@@ -467,10 +512,13 @@ package stick
 //@ func stick.(*metadata).Set
 //@   requires m.attr != nil
 //@ func stick.(*Env).Execute
+//@   propagates
 //@   requires api: env.Loader != nil && out != nil && cbOK(env)
 //@ func stick.(*Env).ExecuteSafe
+//@   propagates
 //@   requires api: env.Loader != nil && out != nil && cbOK(env)
 //@ func stick.(*Env).Parse
+//@   propagates
 //@   requires api: env.Loader != nil
 //@ func stick.(*Env).Register
 //@   requires api: e != nil
